@@ -25,8 +25,17 @@
 //	      uses statement in its body makes of a grouping of the target's own module, reports the
 //	      namespace and instantiating module of the augmenting module.
 //
+//	(iv)  earlier conversions on the same Modules value (every Process run starts from a clean slate;
+//	      "later uses" of the faithful-copy clause): a third of the base variants is also run with
+//	      ToEntry of every grouping and (sub)module BEFORE the first Process (imports not linked
+//	      yet), and every set in which an imported module carries a revision is also run as: process
+//	      with an older revision of it (groupings with an extra leaf, typedef with another base
+//	      type), load the real one, process again. The outcome must be that of a fresh value
+//	      processed once, the reference expansion must hold, and every instance is compared with
+//	      the grouping entry of a FRESH value, not with the possibly stale cache of the value under test.
+//
 // Inputs: corpus/C06/*.json first (hand-written witnesses with a table of expected Extra / Exts),
-// then the seeded sets. Any failure of (ii) or (iii) is a "spec" disagreement with verdict "violates".
+// then the seeded sets. Any failure of (ii), (iii) or (iv) is a "spec" disagreement with verdict "violates".
 package main
 
 import (
@@ -56,6 +65,10 @@ type know struct {
 	BaseNames []string        `json:"base_names,omitempty"`
 	BaseTexts []string        `json:"base_texts,omitempty"`
 	Late      *gen.C06Late    `json:"late,omitempty"`
+	// base variant: also run "ToEntry of everything before Process" (PreConvert) and "process with an
+	// older revision of one imported module, load the real one, process again" (OldRev)
+	PreConvert bool           `json:"pre_convert,omitempty"`
+	OldRev     *gen.C06OldRev `json:"old_rev,omitempty"`
 	// mutated variant: what the augments add and whose namespace it belongs to
 	AugNodes []gen.C06AugNode `json:"aug_nodes,omitempty"`
 	// corpus cases: hand-written Extra / Exts of selected nodes (path as Entry.Path prints it)
@@ -421,7 +434,7 @@ func checkCopies(k know, ms *yang.Modules, ix astIndex, f findings, skipTouched 
 	}
 }
 
-func checkExpansion(k know, ms *yang.Modules, f findings) {
+func checkExpansion(k know, ms *yang.Modules, f findings, skip func(*yang.Module) bool) {
 	var got []gen.C06Rec
 	var walk func(e *yang.Entry)
 	walk = func(e *yang.Entry) {
@@ -451,6 +464,9 @@ func checkExpansion(k know, ms *yang.Modules, f findings) {
 		}
 	}
 	for _, m := range lib.DistinctModules(ms) {
+		if skip != nil && skip(m) {
+			continue
+		}
 		walk(yang.ToEntry(m))
 	}
 	sort.SliceStable(got, func(i, j int) bool { return got[i].Path < got[j].Path })
@@ -892,6 +908,112 @@ func checkAugNamespaces(k know, ms *yang.Modules, f findings) {
 	}
 }
 
+// ---- earlier conversions on the same Modules value ------------------------------------------
+//
+// Every Process run starts from a clean slate: what a use receives must be what the groupings
+// define in the run that builds the tree, whatever was converted before that run. The definition
+// an instance is compared with is therefore the grouping entry of a FRESH value (defIx), never
+// the possibly stale cache of the value under test.
+
+func sameOutcome(what string, got, want []string, f findings) bool {
+	if d := rescorr.Diff(got, want); d != "" {
+		f.add("later uses: %s the outcome differs from that of a fresh value processed once: %s", what, strings.Replace(d, "model:", "fresh:", 1))
+		return false
+	}
+	return true
+}
+
+func checkCopiesAgainst(what string, k know, ms *yang.Modules, defIx astIndex, f findings) {
+	for _, s := range k.Sites {
+		g := defIx.groupings[s.GLoc]
+		e := entryAt(moduleTree(ms, s.Module), s.Path)
+		if g == nil || e == nil {
+			f.add("later uses: %s the instance /%s/%s or its grouping is missing", what, s.Module, strings.Join(s.Path, "/"))
+			continue
+		}
+		if d := firstDiff(contributed(e, s.Names, true, false), contributed(yang.ToEntry(g), s.Names, true, false)); d != "" {
+			f.add("later uses: %s the instance of grouping %s under /%s/%s differs from the grouping's entry in a fresh value: %s", what, s.GName,
+				s.Module, strings.Join(s.Path, "/"), d)
+		}
+	}
+}
+
+// checkPreConvert: ToEntry of every grouping and every (sub)module BEFORE the first Process (the
+// imports are not linked yet: nested uses and types of other modules do not resolve), then Process.
+func checkPreConvert(c rescorr.Case, k know, plain []string, defIx astIndex, f findings) {
+	ms, err := rescorr.Load(rescorr.Case{Names: c.Names, Texts: c.Texts, IgnoreCircular: c.IgnoreCircular, IgnoreNotSupported: c.IgnoreNotSupported})
+	if err != nil {
+		return
+	}
+	ix := indexAST(ms)
+	for _, l := range sortedKeys(ix.groupings) {
+		yang.ToEntry(ix.groupings[l])
+	}
+	for _, m := range allModules(ms) {
+		yang.ToEntry(m)
+	}
+	errs := ms.Process()
+	const what = "after ToEntry of every grouping and (sub)module before Process,"
+	if !sameOutcome(what, lib.DumpOutcome(ms, errs), plain, f) || len(errs) > 0 {
+		return
+	}
+	if len(k.Expect) > 0 {
+		checkExpansion(k, ms, f, nil)
+	}
+	checkCopiesAgainst(what, k, ms, defIx, f)
+}
+
+// checkOldRevision: process the set with an older revision of one imported module (its groupings
+// have an extra leaf, its typedef another base type), load the real revision, process again.
+func checkOldRevision(c rescorr.Case, k know, f findings) {
+	o := k.OldRev
+	if o == nil || o.Index >= len(c.Names) {
+		return
+	}
+	opt := func(ms *yang.Modules) {
+		ms.ParseOptions.IgnoreSubmoduleCircularDependencies = c.IgnoreCircular
+		ms.ParseOptions.DeviateOptions.IgnoreDeviateNotSupported = c.IgnoreNotSupported
+	}
+	parseOld := func(ms *yang.Modules) bool {
+		for i := range c.Names {
+			name, text := c.Names[i], c.Texts[i]
+			if i == o.Index {
+				name, text = o.Name, o.Text
+			}
+			if err := ms.Parse(text, name); err != nil {
+				return false
+			}
+		}
+		return true
+	}
+	ms := yang.NewModules()
+	opt(ms)
+	if !parseOld(ms) {
+		f.add("older revision: the generated older revision %s is rejected", o.Name)
+		return
+	}
+	ms.Process() // the importers' groupings are converted against the older revision
+	if err := ms.Parse(c.Texts[o.Index], c.Names[o.Index]); err != nil {
+		f.add("older revision: %v", err)
+		return
+	}
+	errs := ms.Process()
+	fresh := yang.NewModules()
+	opt(fresh)
+	if !parseOld(fresh) || fresh.Parse(c.Texts[o.Index], c.Names[o.Index]) != nil {
+		return
+	}
+	ferrs := fresh.Process()
+	what := "after a run with the older revision " + o.Name + " and loading the current one,"
+	if !sameOutcome(what, lib.DumpOutcome(ms, errs), lib.DumpOutcome(fresh, ferrs), f) || len(errs) > 0 {
+		return
+	}
+	if len(k.Expect) > 0 {
+		checkExpansion(k, ms, f, func(m *yang.Module) bool { return strings.HasSuffix(m.FullName(), "@2019-01-01") })
+	}
+	checkCopiesAgainst(what, k, ms, indexAST(fresh), f)
+}
+
 func oracle(c rescorr.Case, ms *yang.Modules, errs []error, out *rescorr.GoOut) {
 	var k know
 	if err := json.Unmarshal([]byte(c.Extra["c06"]), &k); err != nil || k.Variant == "" {
@@ -902,6 +1024,10 @@ func oracle(c rescorr.Case, ms *yang.Modules, errs []error, out *rescorr.GoOut) 
 	if k.Variant == "corpus" {
 		checkBinding(k, ix, f)
 		if len(errs) == 0 {
+			if k.PreConvert {
+				checkPreConvert(c, k, out.Dump, ix, f)
+			}
+			checkOldRevision(c, k, f)
 			checkCorpus(k, ms, ix, f)
 		}
 		return
@@ -914,9 +1040,15 @@ func oracle(c rescorr.Case, ms *yang.Modules, errs []error, out *rescorr.GoOut) 
 	checkCopies(k, ms, ix, f, mut)
 	checkExtrasLaw(k, ms, ix, f, mut)
 	if !mut {
-		checkExpansion(k, ms, f)
+		checkExpansion(k, ms, f, nil)
 	}
 	checkSharing(ms, ix, f)
+	if !mut && k.PreConvert {
+		checkPreConvert(c, k, out.Dump, ix, f)
+	}
+	if !mut {
+		checkOldRevision(c, k, f)
+	}
 	var bix *astIndex
 	if mut {
 		checkAugNamespaces(k, ms, f)
@@ -937,7 +1069,7 @@ func main() {
 		return
 	}
 	res := lib.NewResult("C06", f)
-	n := 10000
+	n := 8000
 	if f.Thorough() {
 		n = 150000
 	}
@@ -953,7 +1085,7 @@ func main() {
 	mutKinds := map[string]int64{}
 	mutProps := map[string]int64{}
 	var maxNest int
-	var extrasNodes, extrasUses, capSensitive int64
+	var extrasNodes, extrasUses, capSensitive, preConverted, oldRevs int64
 	distinct := lib.NewDistinct()
 	var clean, cleanMut, withErr, outside, skipped, sitesChecked, untouchedChecked, total int64
 	// corpus first: hand-written witnesses (corpus/C06/*.json) with a table of expected Extra / Exts
@@ -981,11 +1113,16 @@ func main() {
 				Uses []gen.C06UseRef `json:"uses"`
 				// nodes an augment adds, with the namespace and module they belong to
 				AugNodes []gen.C06AugNode `json:"aug_nodes"`
+				// earlier conversions on the same value: ToEntry of everything before Process; an
+				// older revision of the file at old_rev.index processed first
+				PreConvert bool           `json:"pre_convert"`
+				OldRev     *gen.C06OldRev `json:"old_rev"`
 			}
 			if err := json.Unmarshal(raw, &cc); err != nil || len(cc.Names) == 0 {
 				lib.Fatal("corpus file %s: %v", p, err)
 			}
-			kn := know{Variant: "corpus", ExpectExtras: cc.ExpectExtras, Uses: cc.Uses, AugNodes: cc.AugNodes}
+			kn := know{Variant: "corpus", ExpectExtras: cc.ExpectExtras, Uses: cc.Uses, AugNodes: cc.AugNodes, Sites: cc.Sites,
+				PreConvert: cc.PreConvert, OldRev: cc.OldRev}
 			if cc.Variant == "mut" {
 				kn = know{Variant: "mut", Sites: cc.Sites, BaseNames: cc.BaseNames, BaseTexts: cc.BaseTexts, Uses: cc.Uses, AugNodes: cc.AugNodes}
 			}
@@ -1054,7 +1191,14 @@ func main() {
 			if gc.MaxNest > maxNest {
 				maxNest = gc.MaxNest
 			}
-			kb, _ := json.Marshal(know{Variant: "base", Uses: gc.Uses, Sites: gc.Sites, Expect: gc.Expect, Late: gc.Late})
+			kb, _ := json.Marshal(know{Variant: "base", Uses: gc.Uses, Sites: gc.Sites, Expect: gc.Expect, Late: gc.Late,
+				PreConvert: i%3 == 0, OldRev: gc.OldRev})
+			if i%3 == 0 {
+				preConverted++
+			}
+			if gc.OldRev != nil {
+				oldRevs++
+			}
 			cases = append(cases, rescorr.Case{Names: gc.Names, Texts: gc.Texts, Extra: map[string]string{"c06": string(kb)}})
 			metas = append(metas, meta{"base", len(gc.Sites), multi, 0, gc})
 			if gc.MutTexts != nil {
@@ -1130,7 +1274,7 @@ func main() {
 	}
 	res.Evaluations = total
 	res.DistinctNontrivial = distinct.Len()
-	res.Rule = "corpus/C06 (witnesses of D62 and of the seeded changes C06-c1, C06-d2, C06-e1), then seeded grouping-heavy module sets (harness/gen/c06.go: 1-3 modules, 0-3 submodules each with include chains, groupings at " +
+	res.Rule = "corpus/C06 (witnesses of D62 and of the seeded changes C06-c1, C06-d2, C06-e1, C06-g2), then seeded grouping-heavy module sets (harness/gen/c06.go: 1-3 modules, 0-3 submodules each with include chains, groupings at " +
 		"module level, in submodules, in containers/lists/operations/notifications and inside groupings, tiny name pools so that shadowing is " +
 		"frequent, submodules whose belongs-to prefix differs from the module's own prefix and which import another module under the " +
 		"module's own prefix or a sibling's belongs-to prefix, nested uses, typedef t and identity idn defined per module so that resolving in the wrong scope shows, every reachable " +
@@ -1142,6 +1286,8 @@ func main() {
 	res.Distribution["nodes_with_predicted_Extra_or_Exts"] = extrasNodes
 	res.Distribution["uses_statements_with_extras"] = extrasUses
 	res.Distribution["copied_nodes_with_3_own_values_and_a_4th_appended"] = capSensitive
+	res.Distribution["base_variants_also_run_with_ToEntry_of_everything_before_Process"] = preConverted
+	res.Distribution["base_variants_also_run_with_an_older_revision_processed_first"] = oldRevs
 	res.Distribution["corpus_cases"] = corpusN
 	res.Distribution["corpus_cases_clean"] = corpusClean
 	res.Distribution["clean_base_variants"] = clean
